@@ -36,7 +36,9 @@ func mvBool(v bool) mv {
 func mvFix(v int) mv { // -32..127
 	return mv{b: []byte{byte(int8(v))}, d: fmt.Sprintf("fix(%d)", v), k: "int", i: int64(v)}
 }
-func mvI8(v int8) mv { return mv{b: []byte{0xd0, byte(v)}, d: fmt.Sprintf("i8(%d)", v), k: "int", i: int64(v)} }
+func mvI8(v int8) mv {
+	return mv{b: []byte{0xd0, byte(v)}, d: fmt.Sprintf("i8(%d)", v), k: "int", i: int64(v)}
+}
 func mvI16(v int16) mv {
 	b := []byte{0xd1, 0, 0}
 	binary.BigEndian.PutUint16(b[1:], uint16(v))
@@ -54,7 +56,9 @@ func mvI64(v int64) mv {
 	binary.BigEndian.PutUint64(b[1:], uint64(v))
 	return mv{b: b, d: fmt.Sprintf("i64(%d)", v), k: "int", i: v}
 }
-func mvU8(v uint8) mv { return mv{b: []byte{0xcc, v}, d: fmt.Sprintf("u8(%d)", v), k: "uint", u: uint64(v)} }
+func mvU8(v uint8) mv {
+	return mv{b: []byte{0xcc, v}, d: fmt.Sprintf("u8(%d)", v), k: "uint", u: uint64(v)}
+}
 func mvU16(v uint16) mv {
 	b := []byte{0xcd, 0, 0}
 	binary.BigEndian.PutUint16(b[1:], v)
